@@ -397,7 +397,10 @@ func (r *Runner) pickFresh(n int) []int {
 }
 
 // InsertBatch issues an insert batch of fresh ids only.
-func (r *Runner) InsertBatch() {
+func (r *Runner) InsertBatch() { r.Insert(r.GenInsertBatch().Pts) }
+
+// GenInsertBatch generates an insert batch of fresh ids (nothing is executed).
+func (r *Runner) GenInsertBatch() Batch {
 	var b []GenPoint
 	mb := r.MaxBatch
 	if mb == 0 {
@@ -406,7 +409,7 @@ func (r *Runner) InsertBatch() {
 	for _, id := range r.pickFresh(1 + r.R.Intn(mb)) {
 		b = append(b, r.gen(id, false, 0.9))
 	}
-	r.Insert(b)
+	return Batch{Kind: "insert", Pts: b}
 }
 
 // Batch is one generated write batch.
